@@ -118,18 +118,46 @@ def path_arg(op, upto=None):
     return list(toks) if op['aslist'] else '/'.join(toks)
 
 
+def call_args(op, upto=None):
+    """(args, kwargs) of the call: every optional argument the API documents may be given or omitted, positionally
+    ('pos') or by keyword ('kw').  op['net']: network argument (None = omitted); op['h']: hardened flag of
+    child_private (None = omitted)."""
+    net = op.get('net')
+    kw = op.get('conv', 'pos') == 'kw'
+    if op['op'] == 'path':
+        a = [path_arg(op, upto)]
+        names = ['path']
+    elif op['op'] == 'child_private':
+        a = [op['i']] + ([op['h']] if op.get('h') is not None else [])
+        names = ['index', 'hardened']
+    else:
+        a = [op['i']]
+        names = ['index']
+    if kw:
+        args, kwargs = [], dict(zip(names, a))
+        if net is not None:
+            kwargs['network'] = net
+        return args, kwargs
+    if net is None:
+        return a, {}
+    if op['op'] == 'child_private' and op.get('h') is None:
+        return a, {'network': net}          # hardened omitted: the network can only be named
+    return a + [net], {}
+
+
 def apply_op(key, op, upto=None):
     if op['op'] == 'public':
         return key.public()
     if op['op'] == 'reimport':      # through the serialized extended key (the receiver is "any extended key")
         from bitcoinlib.keys import HDKey
         return HDKey(key.wif_private() if key.is_private else key.wif_public(), network=key.network.name)
+    args, kwargs = call_args(op, upto)
     if op['op'] == 'path':
-        return key.subkey_for_path(path_arg(op, upto))
+        return key.subkey_for_path(*args, **kwargs)
     if op['op'] == 'child_private':
-        return key.child_private(op['i'], op['h'])
+        return key.child_private(*args, **kwargs)
     if op['op'] == 'child_public':
-        return key.child_public(op['i'])
+        return key.child_public(*args, **kwargs)
     raise common.MachineryError('unknown op %r' % (op,))
 
 
@@ -177,7 +205,7 @@ def record_of(case):
         tl = [codes(str(call['i']) + ("'" if call.get('h') else ''))]
     _, got = attempt(lambda: apply_op(recv, call), wif=True)
     return {'k': 'path', 'api': api, 'start': start, 'pub': pub, 'aslist': aslist, 'path': path, 'toks': tl, 'mids': mids,
-            'net': st['net'], 'wt': st['wt'].replace('-', '_'), 'got': got}
+            'net': key.network.name, 'callnet': call.get('net') or '', 'wt': str(key.witness_type).replace('-', '_'), 'got': got}
 
 
 def drive_chunk(cases):
@@ -199,17 +227,27 @@ def describe(case):
             s += '.public()'
         elif op['op'] == 'reimport':
             s += '.reimported()'
-        elif op['op'] == 'path':
-            s += '.subkey_for_path(%r)' % (path_arg(op),)
-        elif op['op'] == 'child_private':
-            s += '.child_private(%d, hardened=%s)' % (op['i'], op['h'])
         else:
-            s += '.child_public(%d)' % op['i']
+            a, k = call_args(op)
+            s += '.%s(%s)' % ('subkey_for_path' if op['op'] == 'path' else op['op'],
+                              ', '.join([repr(x) for x in a] + ['%s=%r' % kv for kv in k.items()]))
     return s + ' [%s/%s]' % (st['net'], st['wt'])
 
 
-def P(elems, root='m', aslist=False):
-    return {'op': 'path', 'root': root, 'elems': list(elems), 'aslist': aslist}
+def P(elems, root='m', aslist=False, net=None, conv='pos'):
+    return {'op': 'path', 'root': root, 'elems': list(elems), 'aslist': aslist, 'net': net, 'conv': conv}
+
+
+def CPRIV(i, h=None, net=None, conv='pos'):
+    return {'op': 'child_private', 'i': i, 'h': h, 'net': net, 'conv': conv}
+
+
+def CPUB(i, net=None, conv='pos'):
+    return {'op': 'child_public', 'i': i, 'net': net, 'conv': conv}
+
+
+def other_net(net):
+    return {'bitcoin': 'testnet', 'testnet': 'litecoin', 'litecoin': 'bitcoin'}[net]
 
 
 PUBLIC = {'op': 'public'}
@@ -251,7 +289,7 @@ def vector_records():
         for n in range(len(chain)):
             toks = ['m'] + [e for e, _, _ in chain[1:n + 1]]
             recs.append({'k': 'path', 'api': 'path', 'start': start, 'pub': False, 'aslist': False, 'path': codes('/'.join(toks)),
-                         'toks': [], 'mids': keys[1:n], 'net': 'bitcoin', 'wt': 'legacy', 'got': keys[n]})
+                         'toks': [], 'mids': keys[1:n], 'net': 'bitcoin', 'callnet': '', 'wt': 'legacy', 'got': keys[n]})
     return recs
 
 
@@ -295,6 +333,7 @@ def run(replay=None):
     def add(start, pre, call, klass):
         cases.append(({'start': start, 'pre': pre, 'call': call}, klass))
 
+    eqcases = []
     if replay:
         c = replay['case']
         add(c['start'], c['pre'], c['call'], ('replay',))
@@ -326,6 +365,13 @@ def run(replay=None):
             return {'kind': 'key', 'k': k.to_bytes(32, 'big').hex(), 'c': bytes(rng.getrandbits(8) for _ in range(32)).hex(),
                     'net': net, 'wt': wt}
 
+        def variants(st):
+            """(network argument, calling convention): omitted / own network / another network x positional / keyword"""
+            return [(n, c) for n in (None, st['net'], other_net(st['net'])) for c in ('pos', 'kw')]
+
+        def anyvar(st):
+            return rng.choice(variants(st)) if rng.random() < 0.5 else (None, 'pos')
+
         main = {'kind': 'seed', 'seed': bytes(rng.getrandbits(8) for _ in range(32)).hex(), 'net': 'bitcoin', 'wt': 'legacy'}
         nseeds = 24 if thorough else 5
         lens = [16, 32, 64] + [rng.randrange(16, 65) for _ in range(nseeds - 3)]
@@ -341,21 +387,21 @@ def run(replay=None):
                 add(main, [], P(sh), ('priv', 'm', 'str', cls(sh)))
                 add(main, [PUBLIC], P(sh), ('pub', 'm', 'str', cls(sh)))
         if not thorough:
-            for sh in sample(shapes[3], 120):
+            for sh in sample(shapes[3], 60):
                 add(main, [], P(sh), ('priv', 'm', 'str', cls(sh)))
-            for sh in sample(shapes[3], 100):
+            for sh in sample(shapes[3], 60):
                 add(main, [PUBLIC], P(sh), ('pub', 'm', 'str', cls(sh)))
         # (2) 'M' root (public derivation requested on a private key / on a public key), other routes
         for sh in shapes[0] + shapes[1] + sample(shapes[2], 600 if thorough else 50) + sample(shapes[3], 600 if thorough else 20):
-            add(main, [], P(sh, 'M'), ('priv', 'M', 'str', cls(sh)))
+            add(main, [], P(sh, 'M', False, *anyvar(main)), ('priv', 'M', 'str', cls(sh)))
         for sh in shapes[1] + sample(shapes[2], 200 if thorough else 15):
-            add(main, [PUBLIC], P(sh, 'M'), ('pub', 'M', 'str', cls(sh)))
+            add(main, [PUBLIC], P(sh, 'M', False, *anyvar(main)), ('pub', 'M', 'str', cls(sh)))
         for sh in sample(shapes[1] + shapes[2] + shapes[3], 900 if thorough else 70):
             root, aslist = rng.choice([('m', True), ('M', True), ('', True), ('', False)])
             pre = rng.choice([[], [PUBLIC]])
-            add(main, pre, P(sh, root, aslist), ('pub' if pre else 'priv', root, 'list' if aslist else 'rel', cls(sh)))
+            add(main, pre, P(sh, root, aslist, *anyvar(main)), ('pub' if pre else 'priv', root, 'list' if aslist else 'rel', cls(sh)))
         # (3) the split between private and public derivation at every position, both spellings
-        for sh in sample(shapes[1] + shapes[2] + shapes[3] + shapes[3], 700 if thorough else 150):
+        for sh in sample(shapes[1] + shapes[2] + shapes[3] + shapes[3], 700 if thorough else 110):
             for j in (range(0, len(sh) + 1) if thorough else [rng.randrange(0, len(sh) + 1)]):
                 how = rng.choice(['public()', 'M'])
                 pre = [P(sh[:j])] if j else []
@@ -363,7 +409,7 @@ def run(replay=None):
                     add(main, pre + [PUBLIC], P(sh[j:], rng.choice(['m', ''])) if sh[j:] else P([], 'm'),
                         ('split', j, how, cls(sh)))
                 else:
-                    add(main, pre, P(sh[j:], 'M'), ('split', j, how, cls(sh)))
+                    add(main, pre, P(sh[j:], 'M', False, *anyvar(main)), ('split', j, how, cls(sh)))
         # (4) other seeds / master keys: sampled shapes, plus children with leading zero bytes (found by search)
         for i, st in enumerate(others):
             sp = special_children(bytes.fromhex(st['seed'])) if st['kind'] == 'seed' else []
@@ -376,7 +422,7 @@ def run(replay=None):
             for sh in shapes[0] + sample(shapes[1], 5) + sample(shapes[2], 8 if not thorough else 40) + \
                     sample(shapes[3], 8 if not thorough else 40):
                 pre = rng.choice([[], [], [PUBLIC]])
-                add(st, pre, P(sh, rng.choice(['m', 'm', 'M'])), ('other', st['kind'], len(bytes.fromhex(st.get('seed', ''))),
+                add(st, pre, P(sh, rng.choice(['m', 'm', 'M']), False, *anyvar(st)), ('other', st['kind'], len(bytes.fromhex(st.get('seed', ''))),
                                                                    bool(pre), cls(sh)))
         # (5) deep random paths: every step through a randomly chosen API, the whole path in one call
         ndeep = 150 if thorough else 14
@@ -399,10 +445,10 @@ def run(replay=None):
                     pre = pre + [{'op': 'reimport'}]
                 how = rng.choice(['path', 'ckd', 'rel'])
                 if how == 'ckd':
-                    call = {'op': 'child_public', 'i': i} if pub or (not h and rng.random() < 0.2) \
-                        else {'op': 'child_private', 'i': i, 'h': h}
+                    call = CPUB(i, *anyvar(st)) if pub or (not h and rng.random() < 0.2) \
+                        else CPRIV(i, h if h or rng.random() < 0.5 else None, *anyvar(st))
                 else:
-                    call = P([toks[j]], 'm' if how == 'path' else '', rng.random() < 0.3)
+                    call = P([toks[j]], 'm' if how == 'path' else '', rng.random() < 0.3, *anyvar(st))
                 if call['op'] == 'child_public' and not pub:
                     add(st, pre, call, ('deep-step', 'child_public-on-private', h))
                     call = P([toks[j]])
@@ -417,17 +463,43 @@ def run(replay=None):
                 # a hardened child of the public key at the end of the chain: never
                 add(st, pre + ([PUBLIC] if split == depth else []), P(["%d%s" % (rng.randrange(2 ** 31), rng.choice("'hHpP"))]),
                     ('deep', 'hardened-from-public'))
-                add(st, pre + ([PUBLIC] if split == depth else []), {'op': 'child_public', 'i': 2 ** 31 + rng.randrange(2 ** 31)},
+                add(st, pre + ([PUBLIC] if split == depth else []), CPUB(2 ** 31 + rng.randrange(2 ** 31), *anyvar(st)),
                     ('deep', 'child_public-hardened-index'))
         # (6) API edge cases
         for st in [main, others[0]]:
             for i, h in [(0, False), (0, True), (2 ** 31 - 1, True), (2 ** 31, False), (2 ** 31, True), (2 ** 32 - 1, False),
                          (2 ** 32 - 1, True), (2 ** 32, False), (2 ** 32, True), (-1, False), (-1, True)]:
-                add(st, [], {'op': 'child_private', 'i': i, 'h': h}, ('api', 'child_private', i, h))
-                add(st, [PUBLIC], {'op': 'child_private', 'i': i, 'h': h}, ('api', 'child_private-on-public', i, h))
+                add(st, [], CPRIV(i, h), ('api', 'child_private', i, h))
+                add(st, [PUBLIC], CPRIV(i, h), ('api', 'child_private-on-public', i, h))
             for i in [0, 1, 2 ** 31 - 1, 2 ** 31, 2 ** 31 + 1, 2 ** 32 - 1, 2 ** 32, -1]:
-                add(st, [], {'op': 'child_public', 'i': i}, ('api', 'child_public-on-private', i))
-                add(st, [PUBLIC], {'op': 'child_public', 'i': i}, ('api', 'child_public', i))
+                add(st, [], CPUB(i), ('api', 'child_public-on-private', i))
+                add(st, [PUBLIC], CPUB(i), ('api', 'child_public', i))
+        # (7) every optional argument of every derivation entry point, given and omitted, positionally and by keyword,
+        #     on private and public-only receivers: network (own / another network's name), hardened flag
+        eqcases = []
+        for st in ([main, others[0], others[-1]] if thorough else [main, others[-1]]):
+            for net, conv in variants(st):
+                tag = ('own' if net == st['net'] else 'other' if net else 'omitted', conv)
+                for pre in ([], [PUBLIC]):
+                    pk = 'pub' if pre else 'priv'
+                    if net is not None:         # (omitted: groups 1 and 2)
+                        for root in (['m', 'M'] if st is main else ['M']):
+                            for sh in (shapes[1] if st is main else sample(shapes[1], 6)):
+                                add(st, pre, P(sh, root, False, net, conv), ('args', 'path', pk, root, tag, cls(sh)))
+                        for sh in sample(shapes[2] + shapes[3], 40 if thorough else 5):
+                            add(st, pre, P(sh, rng.choice(['m', 'M', '']), rng.random() < 0.3, net, conv),
+                                ('args', 'path', pk, 'long', tag, cls(sh)))
+                    for i in ([0, 1, 2 ** 31 - 1, 2 ** 31, 2 ** 32 - 1] if thorough or st is main else [0, 2 ** 31]):
+                        for h in ([None, False, True] if not pre else [None, True]):
+                            add(st, pre, CPRIV(i, h, net, conv), ('args', 'child_private', pk, i, h, tag))
+                    for i in [0, 1, 5, 2 ** 31 - 1, 2 ** 31]:
+                        add(st, pre, CPUB(i, net, conv), ('args', 'child_public', pk, i, tag))
+                # public(private child) = child of public(parent), whichever entry point and arguments
+                for i in [0, 1, 7, 2 ** 31 - 1, rng.randrange(2 ** 31)]:
+                    a = [CPRIV(i, rng.choice([None, False]), net, conv), PUBLIC]
+                    for b in ([PUBLIC, CPUB(i, net, conv)], [CPUB(i, net, conv)], [P([str(i)], 'M', False, net, conv)],
+                              [PUBLIC, P([str(i)], rng.choice(['m', 'M', '']), False, net, conv)]):
+                        eqcases.append((st, a, b, ('commute', b[-1]['op'], len(b), tag)))
 
     lap('generate')
     # ---------------- drive bitcoinlib
@@ -455,15 +527,37 @@ def run(replay=None):
         tok = rng.choice(['0', '1', '2147483647', str(rng.randrange(2 ** 31)), "5'"])
         crecs.append({'k': 'commute', 'start': {'kind': 'obs', 'seed': [], 'k': [], 'c': [], 'obs': o}, 'tok': codes(tok)})
 
+    # the same child through two routes (key material only; the objects' networks are those asked for in both)
+    erecs = []
+    ekept = []
+    for st, a, b, klass in eqcases:
+        try:
+            ka, kb = receiver(st, a), receiver(st, b)
+        except Exception:
+            ekept.append((st, a, b, klass, None))
+            continue
+        erecs.append({'k': 'eq', 'a': obs_key(ka), 'b': obs_key(kb)})
+        ekept.append((st, a, b, klass, len(erecs) - 1))
     lap('drive')
     # ---------------- judge everything with TLC
-    verdicts = orc.judge(vrecs + crecs + recs)
+    verdicts = orc.judge(vrecs + crecs + recs + erecs)
     lap('judge')
     for r, v in zip(vrecs + crecs, verdicts):
         if v['v'] != 'ok':
             raise common.MachineryError('specification / reference primitives fail their self-test (%s): clause %s at %s' % (
                 'published BIP32 vector' if r['k'] == 'path' else 'commutation on secp256k1', v['v'], v.get('at')))
-    for (case, klass), rec, v in zip(kept, recs, verdicts[len(vrecs) + len(crecs):]):
+    ev = verdicts[len(vrecs) + len(crecs) + len(recs):]
+    for st, a, b, klass, ix in ekept:
+        ck.case(klass)
+        da = describe({'start': st, 'pre': a[:-1], 'call': a[-1]})
+        db = describe({'start': st, 'pre': b[:-1], 'call': b[-1]})
+        if ix is None:
+            ck.violation(None, 'clause commutation-route-refused: one of %s | %s is refused' % (da, db),
+                         {'start': st, 'pre': b[:-1], 'call': b[-1]})
+        elif ev[ix]['v'] != 'ok':
+            ck.violation(None, 'clause public-and-private-derivation-differ: %s  is not the same key as  %s' % (da, db),
+                         {'start': st, 'pre': b[:-1], 'call': b[-1]})
+    for (case, klass), rec, v in zip(kept, recs, verdicts[len(vrecs) + len(crecs):len(vrecs) + len(crecs) + len(recs)]):
         ck.case(klass)
         if v['v'] != 'ok':
             got = rec['got']
